@@ -28,6 +28,9 @@ for _pid, _t in [("C01", "edit script accounting (every child exactly once, list
                   ("C08", "2-safety by self-composition: the same symbolic documents are diffed before and after permuting the keys of one mapping "
                           "(generators of the permutation group, engine-chosen site) -- equal cost, equal pairing, permuted copy costs 0; list "
                           "transpositions of unequal elements cost > 0"),
+                  ("C09", "the four real Filetype.build_tree implementations (json, json5, yaml, plist) fed by loader stubs returning the same "
+                          "symbolic value: cost(f1(A), f2(B)) equals the json/json baseline for all 15 other ordered format pairs and the same "
+                          "data in two formats costs 0 / exits 0; parser agreement itself (C code) is assumed"),
                   ("C10", "'none' never pairs different keys, 'auto' pairs every shared key with itself, list modes give strictly positional "
                           "pairs plus one surplus tail; BuildOptions -> node flags read back from the built trees")]:
     CHECKS[_pid] = dict(
